@@ -53,6 +53,22 @@ static std::string plain(const XMLCh* s) {
     return out;
 }
 
+// file names are bytes (UTF-8): print them like plain() prints XMLCh strings (code points, escapes for the rest)
+static std::string plainPath(const std::string& s) {
+    std::string out;
+    for (size_t i = 0; i < s.size();) {
+        unsigned c = (unsigned char)s[i];
+        unsigned cp = c; size_t n = 1;
+        if (c >= 0xF0 && i + 3 < s.size()) { cp = ((c & 7) << 18) | ((s[i+1] & 63) << 12) | ((s[i+2] & 63) << 6) | (s[i+3] & 63); n = 4; }
+        else if (c >= 0xE0 && i + 2 < s.size()) { cp = ((c & 15) << 12) | ((s[i+1] & 63) << 6) | (s[i+2] & 63); n = 3; }
+        else if (c >= 0xC0 && i + 1 < s.size()) { cp = ((c & 31) << 6) | (s[i+1] & 63); n = 2; }
+        i += n;
+        if (cp > 0x20 && cp < 0x7F && cp != ',' && cp != ';' && cp != '(' && cp != ')') out += (char)cp;
+        else { char b[16]; snprintf(b, sizeof b, "\\u%04X", cp & 0xFFFF); out += b; }
+    }
+    return out;
+}
+
 static void walk(const std::string& dir) {
     int wd = inotify_add_watch(gIno, dir.c_str(), IN_OPEN);
     if (wd >= 0) gWatch[wd] = dir;
@@ -89,7 +105,7 @@ static void drain(bool record) {
             if (record && (ev->mask & IN_OPEN) && !(ev->mask & IN_ISDIR) && ev->len > 0) {
                 auto it = gWatch.find(ev->wd);
                 std::string path = (it == gWatch.end() ? std::string("?") : it->second) + "/" + ev->name;
-                gTrace.push_back("O(" + path + ")");
+                gTrace.push_back("O(" + plainPath(path) + ")");
             }
             p += sizeof(inotify_event) + ev->len;
         }
